@@ -283,11 +283,50 @@ def _chained_alias(fn, name, lst, bs):
         if b[0] in roots and stmt.lineno < b[4] <= last:
             return False
     text = ast.unparse(chain)
+    par = {}
+    for n in ast.walk(fn):
+        for c in ast.iter_child_nodes(n):
+            par[c] = n
+
+    def chain_up(x):
+        out = []
+        while x in par:
+            out.append((par[x], x))
+            x = par[x]
+        return out
+
+    def exclusive(a, b):
+        """a and b sit in different branches of one ``if``."""
+        ca = {id(p_): ch for p_, ch in chain_up(a)}
+        for p_, ch in chain_up(b):
+            if isinstance(p_, ast.If) and id(p_) in ca:
+                cha = ca[id(p_)]
+                in_body = lambda x: any(x is y for y in p_.body)
+                in_else = lambda x: any(x is y for y in p_.orelse)
+                if (in_body(cha) and in_else(ch)) or (
+                        in_else(cha) and in_body(ch)):
+                    return True
+        return False
+
+    def loops_of(x):
+        return [p_ for p_, _ in chain_up(x)
+                if isinstance(p_, (ast.For, ast.While))]
+
     for n in ast.walk(fn):
         if isinstance(n, (ast.Assign, ast.AugAssign)) and n is not stmt and \
-                stmt.lineno < n.lineno < last:
+                stmt.lineno < n.lineno <= last:
             tg = n.targets if isinstance(n, ast.Assign) else [n.target]
-            if any(ast.unparse(t) == text for t in tg):
+            if not any(ast.unparse(t) == text for t in tg):
+                continue
+            # a loop around the re-binding that does not re-run the alias
+            if any(lp not in loops_of(stmt) for lp in loops_of(n)):
+                return False
+            inside = {id(x) for x in ast.walk(n.value)}
+            for u in uses:
+                if u.lineno < n.lineno or id(u) in inside:
+                    continue        # read before the store
+                if exclusive(n, u):
+                    continue
                 return False
     load = copy.deepcopy(chain)
     for n in ast.walk(load):
